@@ -129,6 +129,7 @@ def run(case):
     world, knobs = case['world'], case['knobs']
     with C.scratch() as root:
         gd, written = W.write_world(world, root, knobs)
+        C.prelude(world, knobs, root, out['faults'])
         arg, order = C.path_argument(world, gd, case['path'])
         kw = dict(cleaned=case['cleaned'], subsamples=copy.deepcopy(case['subsamples']), fields=copy.deepcopy(case['fields']))
         # the index columns needed for subsamples are added automatically only for cleaned loads (that is C02's
